@@ -315,6 +315,7 @@ def fstring_spec_pattern(quote: str) -> str:
 
 
 tabsize = 8
+MAXINDENT = 100  # CPython's limit on the depth of the indentation stack (the outermost level counts)
 
 
 class TokenError(Exception):
@@ -509,6 +510,9 @@ def next_statement(state: TokenizerState, readline: Callable[[], str]) -> Genera
     if column > state.indents[-1]:  # count indents or dedents
         if alt_column <= state.alt_indents[-1]:
             raise _tab_error(state)
+        if len(state.indents) >= MAXINDENT:  # as in CPython
+            args = ("<tokenize>", state.lnum, state.pos + 1, state.line, state.lnum, state.pos + 1)
+            raise IndentationError("too many levels of indentation", args)
         state.indents.append(column)
         state.alt_indents.append(alt_column)
         yield TokenInfo(
